@@ -13,6 +13,9 @@ CHECKS = {
              text='The same sweep plus random allocating call histories run on an ASan+UBSan build with the allocation balance read around every call; any sanitizer report, crash or balance that grows on 3 of 3 repetitions is a violation. Held = no report on the executions counted in the evidence, not memory safety.',
              note='Red-zone tools miss non-adjacent overflows; zero-length libc calls with NULL (nonnull-attribute) are not flagged.', ref='2 C04'),
 }
+CHECKS['C14'] = dict(technique='model-based runtime monitor: random operation histories checked step by step against a shadow dictionary, under ASan/UBSan and valgrind',
+             text='Seeded random histories of array creation, additions, crystal files (well-formed, corrupt, duplicate, truncated), listings, lookups, copies and frees are executed against the real library; after every step the observable state is compared with a model dictionary, on user arrays crossing their initial capacity and on the built-in array up to its fixed capacity.',
+             note='Trusted: the shadow model in harness/histmon.c; files use the canonical layout; truncated files are only held to the error contract.', ref='2 C14')
 NOT_APPLICABLE = [
  dict(property_id='C20', reason='Fortran/Pascal/Cython/IDL/SWIG interface files cannot be compiled, loaded or executed in this sandbox (no gfortran, fpc, Cython, swig, IDL), so there is no execution for a runtime monitor to observe; comparing their text is static analysis, a different technique. The executable slices (Java constants, C++ header, exported symbols) are monitored as by-products of C19/C18/C03.'),
 ]
